@@ -1,5 +1,292 @@
-(* C18 — property theorems (placeholder until the model is built). *)
-From WI Require Import Lib.Base Lib.Info Model.Jwt Proofs.Jwt.
-Theorem C18_placeholder : True.
-Proof. exact I. Qed.
-Print Assumptions C18_placeholder.
+(* C18 — JWTs are recognised structurally and their registered fields shown faithfully.
+   Only statements; proofs are in Proofs/Jwt.v.  [J] is the encoding/json oracle: what
+   json.Unmarshal into a map[string]any returned for the decoded bytes (object with that
+   content / null / error); every theorem holds for every such function.
+   The specification side ([no_dot], [shows], [hidden], [listing], [subseq], [registered_names],
+   [algs12], [url_char]) is defined in Proofs/Jwt.v independently of the converters of the model. *)
+From WI Require Import Lib.Base Lib.Info Lib.Time Model.Base64 Model.Jwt Proofs.Jwt.
+From WI Require Run.C18 Proofs.JwtDate Model.Dispatch Proofs.JwtDispatch.
+From Coq Require Import Permutation.
+Open Scope N_scope.
+
+(* T1: the regenerated table jwtParams has one row per registered name (16 of them), with the
+   converter of its kind, pairwise distinct keys and labels, none of them "Signature".
+   Nothing is required of the order of the rows. *)
+Theorem C18_table_ok : params_ok jwt_params = true.
+Proof. exact params_ok_now. Qed.
+Print Assumptions C18_table_ok.
+
+(* Recognition: exactly three dot-free segments, each accepted by DecodeAnyBase64 (C14: any of
+   the four conventions, line breaks ignored), the first two decoding to JSON objects. *)
+Theorem C18_recognised_iff : forall J s,
+  is_jwt J s = true <->
+  exists h p g,
+    s = h ++ dot :: p ++ dot :: g /\ no_dot h = true /\ no_dot p = true /\ no_dot g = true /\
+    (exists hb, decode_any h = Ok hb /\ is_object (J hb) = true) /\
+    (exists pb, decode_any p = Ok pb /\ is_object (J pb) = true) /\
+    (exists gb, decode_any g = Ok gb).
+Proof. exact recognised_iff. Qed.
+Print Assumptions C18_recognised_iff.
+
+(* non-vacuity: a token meeting the right-hand side ({"alg":"none"}.{}. with an empty signature) *)
+Example C18_recognised_example :
+  is_jwt (fun b => if bytes_eqb b (bs "{}") then JRObject []
+                   else JRObject [(bs "alg", JStr (bs "none"))])
+         (bs "eyJhbGciOiJub25lIn0.e30.") = true.
+Proof. vm_compute. reflexivity. Qed.
+
+(* The parsed token is made of exactly those three segments' contents. *)
+Theorem C18_parsed_content : forall J s j,
+  parse_jwt J s = Ok j <->
+  exists h p g hb pb,
+    split_dot s = [h; p; g] /\
+    decode_any h = Ok hb /\ J hb = JRObject (j_header j) /\
+    decode_any p = Ok pb /\ J pb = JRObject (j_payload j) /\
+    decode_any g = Ok (j_sig j).
+Proof. exact parse_jwt_ok_iff. Qed.
+Print Assumptions C18_parsed_content.
+
+(* A description is produced exactly for recognised input, and it is the description of the
+   parsed token. *)
+Theorem C18_described_iff_recognised : forall J s, is_ok (jwt_data J s) = is_jwt J s.
+Proof. exact described_iff_recognised. Qed.
+Print Assumptions C18_described_iff_recognised.
+
+Theorem C18_description : forall J s i,
+  jwt_data J s = Ok i <-> exists j, parse_jwt J s = Ok j /\ i = describe_jwt j.
+Proof. exact jwt_data_ok_iff. Qed.
+Print Assumptions C18_description.
+
+(* Fields: the attributes are the listing of the header, then the listing of the payload, then
+   the signature; "JSON Web Token (JWT)", no children.  [listing] walks the table in its order:
+   a row contributes (label, text) when its key is present with a value that [shows] as text,
+   and nothing when the key is absent or the value is [hidden]. *)
+Theorem C18_fields : forall hdr pl sig lh lp,
+  listing jwt_params hdr lh -> listing jwt_params pl lp ->
+  describe_jwt (mkjwt hdr pl sig) =
+  Info (bs "JSON Web Token (JWT)") (lh ++ lp ++ [(bs "Signature", encode RawURL sig)]) [].
+Proof. exact fields_spec. Qed.
+Print Assumptions C18_fields.
+
+(* the hypotheses are always met, by exactly one list *)
+Theorem C18_fields_total : forall m, exists l, listing jwt_params m l /\
+  forall l', listing jwt_params m l' -> l' = l.
+Proof.
+  intros m. exists (attrs_of m). split; [apply attrs_listing|].
+  intros l' H. apply listing_iff. exact H.
+Qed.
+Print Assumptions C18_fields_total.
+
+(* what [shows] and [hidden] mean for the converters of the code *)
+Theorem C18_converters : forall c v,
+  (forall t, convert c v = Some t <-> shows c v t) /\ (convert c v = None <-> hidden c v).
+Proof. intros c v. split; [intros t; apply convert_shows | apply convert_hidden]. Qed.
+Print Assumptions C18_converters.
+
+(* Every registered name present with a string value is shown with that value ... *)
+Theorem C18_string_shown : forall k m s,
+  In (k, CStr) registered_names -> jlookup k m = Some (JStr s) ->
+  exists l, In (mkparam k l CStr) jwt_params /\ In (l, s) (attrs_of m).
+Proof. exact string_field_listed. Qed.
+Print Assumptions C18_string_shown.
+
+(* ... alg expanded for the twelve algorithms of RFC 7518, any other string verbatim ... *)
+Theorem C18_alg_shown : forall k m s,
+  In (k, CAlg) registered_names -> jlookup k m = Some (JStr s) ->
+  exists l, In (mkparam k l CAlg) jwt_params /\
+    ((exists e, In s algs12 /\ alg_expansion s = Some e /\
+                In (l, e ++ bs " (" ++ s ++ bs ")") (attrs_of m))
+     \/ (~ In s algs12 /\ In (l, s) (attrs_of m))).
+Proof. exact alg_field_listed. Qed.
+Print Assumptions C18_alg_shown.
+
+Theorem C18_alg_texts :
+  map sig_alg (algs12 ++ [bs "none"; bs ""; bs "hs256"]) =
+  [bs "HMAC using SHA-256 (HS256)"; bs "HMAC using SHA-384 (HS384)"; bs "HMAC using SHA-512 (HS512)";
+   bs "RSA PKCS1 v1.5 with SHA-256 (RS256)"; bs "RSA PKCS1 v1.5 with SHA-384 (RS384)";
+   bs "RSA PKCS1 v1.5 with SHA-512 (RS512)";
+   bs "ECDSA using P-256 (secp256r1, prime256v1) and SHA-256 (ES256)";
+   bs "ECDSA using P-384 (secp384r1) and SHA-384 (ES384)";
+   bs "ECDSA using P-521 (secp521r1) and SHA-512 (ES512)";
+   bs "RSA PSS using SHA-256 and MGF1 with SHA-256 (PS256)";
+   bs "RSA PSS using SHA-384 and MGF1 with SHA-384 (PS384)";
+   bs "RSA PSS using SHA-512 and MGF1 with SHA-512 (PS512)";
+   bs "none"; bs ""; bs "hs256"].
+Proof. exact alg_texts. Qed.
+Print Assumptions C18_alg_texts.
+
+(* ... numeric dates (a JSON number, i.e. the float64 mant * 2^e) as the UTC second they fall in,
+   for instants with a four-digit year ... *)
+Theorem C18_numeric_date_shown : forall k m mant e,
+  In (k, CTime) registered_names -> jlookup k m = Some (JNum mant e) ->
+  in_calendar (float_floor mant e) = true ->
+  exists l, In (mkparam k l CTime) jwt_params /\
+            In (l, fmt_datetime (civil_of_unix (float_floor mant e) 0)) (attrs_of m).
+Proof. exact numeric_date_listed. Qed.
+Print Assumptions C18_numeric_date_shown.
+
+(* "the UTC time they denote": the text shown for an instant t of the calendar, read back as
+   "YYYY-MM-DD hh:mm:ss" through the inverse calendar function (the reader of the spec checker,
+   Run/C18.v), is t itself.  Together with C18_numeric_date_shown: the text listed for a numeric
+   exp/nbf/iat denotes the second the number falls in. *)
+Theorem C18_date_text_denotes : forall t,
+  in_calendar t = true -> Run.C18.parse_datetime (fmt_datetime (civil_of_unix t 0)) = Some t.
+Proof. exact Proofs.JwtDate.date_text_denotes. Qed.
+Print Assumptions C18_date_text_denotes.
+
+Example C18_numeric_date_example :
+  attrs_of [(bs "exp", JNum 1700000000 0); (bs "nbf", JNum (-1) (-1)); (bs "iat", JNum 3400000001 (-1))] =
+  [(bs "Expiration", bs "2023-11-14 22:13:20"); (bs "Issued At", bs "2023-11-14 22:13:20");
+   (bs "Not Before", bs "1969-12-31 23:59:59")].
+Proof. vm_compute. reflexivity. Qed.
+
+(* ... a date claim given as a string: a decimal integer in range reads as that instant, any
+   other string is shown as it is ... *)
+Theorem C18_date_string_shown : forall k m s,
+  In (k, CTime) registered_names -> jlookup k m = Some (JStr s) ->
+  exists l, In (mkparam k l CTime) jwt_params /\
+    ((exists i, parse_int64 s = Some i /\ in_calendar i = true /\
+                In (l, fmt_datetime (civil_of_unix i 0)) (attrs_of m))
+     \/ In (l, s) (attrs_of m)).
+Proof. exact date_string_listed. Qed.
+Print Assumptions C18_date_string_shown.
+
+(* ... and fields that are absent, or whose value is null / a boolean / an array / an object /
+   a number where no date is expected (or outside the calendar), are not shown. *)
+Theorem C18_not_shown : forall p m,
+  In p jwt_params ->
+  (jlookup (p_key p) m = None \/
+   (exists v, jlookup (p_key p) m = Some v /\ not_text_or_number v) \/
+   (exists mant e, jlookup (p_key p) m = Some (JNum mant e) /\
+                   (p_conv p <> CTime \/ in_calendar (float_floor mant e) = false))) ->
+  ~ In (p_label p) (map fst (attrs_of m)).
+Proof. exact not_shown_cases. Qed.
+Print Assumptions C18_not_shown.
+
+(* nothing else is shown: every listed attribute is a registered field present with that text *)
+Theorem C18_only_registered : forall m l s,
+  In (l, s) (attrs_of m) ->
+  exists p v, In p jwt_params /\ p_label p = l /\ jlookup (p_key p) m = Some v /\ shows (p_conv p) v s.
+Proof. exact (listed_from jwt_params). Qed.
+Print Assumptions C18_only_registered.
+
+(* the order is fixed (that of the table, independent of the map) and no field is listed twice *)
+Theorem C18_order_fixed : forall m,
+  subseq (map fst (attrs_of m)) (map p_label jwt_params) /\ NoDup (map fst (attrs_of m)).
+Proof. exact order_fixed. Qed.
+Print Assumptions C18_order_fixed.
+
+(* Signature: the last attribute is the unpadded base64url text of the raw bytes of the third
+   segment; that text uses the URL-safe alphabet only and decodes back to exactly those bytes. *)
+Theorem C18_signature : forall J s j,
+  parse_jwt J s = Ok j ->
+  exists h p g,
+    s = h ++ dot :: p ++ dot :: g /\ no_dot g = true /\ decode_any g = Ok (j_sig j) /\
+    last (i_attrs (describe_jwt j)) ([], []) = (bs "Signature", encode RawURL (j_sig j)) /\
+    decode_any (encode RawURL (j_sig j)) = Ok (j_sig j) /\
+    std_decode RawURL (encode RawURL (j_sig j)) = Some (j_sig j) /\
+    forallb url_char (encode RawURL (j_sig j)) = true.
+Proof. exact signature_shown. Qed.
+Print Assumptions C18_signature.
+
+(* the encoder typed into the spec checker from RFC 4648 section 5 agrees with the model's *)
+Theorem C18_spec_encoder_agrees : forall l, bytes_ok l = true ->
+  Run.C18.spec_b64url l = encode RawURL l.
+Proof. exact Proofs.JwtDate.spec_encoder_agrees. Qed.
+Print Assumptions C18_spec_encoder_agrees.
+
+Theorem C18_signature_injective : forall a b, bytes_ok a = true -> bytes_ok b = true ->
+  encode RawURL a = encode RawURL b -> a = b.
+Proof. exact signature_text_injective. Qed.
+Print Assumptions C18_signature_injective.
+
+(* No input and no answer of the JSON library makes ParseJWT / IsJWT / JWTData panic. *)
+Theorem C18_no_panic : forall J s site,
+  parse_jwt J s <> Panic site /\ jwt_data J s <> Panic site.
+Proof.
+  intros J s site. split; [apply (parse_never_panics true) | apply jwt_data_never_panics].
+Qed.
+Print Assumptions C18_no_panic.
+
+(* ---- the code before the repairs refutes the property (pre-repair variants of the model) ---- *)
+(* F22: with the pre-made map, null.null. is accepted although no segment is a JSON object *)
+Theorem C18_F22_refuted : exists J s,
+  is_ok (parse_jwt_gen false J s) = true /\ (forall b, is_object (J b) = false) /\ is_jwt J s = false.
+Proof.
+  exists J_null, (bs "bnVsbA.bnVsbA."). destruct F22_witness as (A & B & C). auto.
+Qed.
+Print Assumptions C18_F22_refuted.
+
+(* F21: a numeric exp is present and in range but nothing is listed *)
+Theorem C18_F21_refuted : exists m k mant e order,
+  In (k, CTime) registered_names /\ jlookup k m = Some (JNum mant e) /\
+  in_calendar (float_floor mant e) = true /\ attrs_orig jwt_params order m = [] /\ order = map fst m.
+Proof.
+  exists [(bs "exp", JNum 1700000000 0)], (bs "exp"), 1700000000%Z, 0%Z, [bs "exp"].
+  repeat split; try (vm_compute; reflexivity). cbn. tauto.
+Qed.
+Print Assumptions C18_F21_refuted.
+
+(* the empty string is a string value, yet nothing was listed *)
+Theorem C18_empty_string_refuted : exists m k order,
+  In (k, CStr) registered_names /\ jlookup k m = Some (JStr []) /\
+  attrs_orig jwt_params order m = [] /\ order = map fst m.
+Proof.
+  exists [(bs "sub", JStr [])], (bs "sub"), [bs "sub"].
+  repeat split; try (vm_compute; reflexivity). cbn. tauto.
+Qed.
+Print Assumptions C18_empty_string_refuted.
+
+(* F13: the listing depended on the iteration order of the map *)
+Theorem C18_F13_refuted : exists m o1 o2,
+  Permutation o1 o2 /\ attrs_orig jwt_params o1 m <> attrs_orig jwt_params o2 m.
+Proof.
+  exists [(bs "iss", JStr (bs "a")); (bs "sub", JStr (bs "b"))], [bs "iss"; bs "sub"], [bs "sub"; bs "iss"].
+  exact F13_witness.
+Qed.
+Print Assumptions C18_F13_refuted.
+
+(* ---- dispatch (F37) ---- *)
+(* T1: in the regenerated format table the first row sniffed by IsJWT has the parser JWTData and is
+   preceded only by rows without a sniffer (reserved names, signatures) or with the UUID sniffer;
+   in particular the ASN.1 rows come later. *)
+Theorem C18_dispatch_table_ok : Proofs.JwtDispatch.dispatch_ok Model.Dispatch.table = true.
+Proof. exact Proofs.JwtDispatch.dispatch_ok_now. Qed.
+Print Assumptions C18_dispatch_table_ok.
+
+(* Inspect reaches JWTData: when no reserved-name row and no signature row matches and the input
+   is not a UUID, an input that IsJWT accepts is described by JWTData whatever the later sniffers
+   (IsASN1, IsBase64ASN1, IsMixedPEM) answer.  (DESIGN's C18_dispatch, PARTIAL: the three
+   hypotheses about names, signatures and the UUID sniffer are assumed, not derived from
+   well-formedness of the token; they are exercised by the op "inspect" on every well-formed case.) *)
+Theorem C18_dispatch_partial : forall sniff parse name data i,
+  (forall r, In r Model.Dispatch.table -> Model.Dispatch.matches_name r name = Ok false) ->
+  (forall r, In r Model.Dispatch.table -> Model.Dispatch.matches_magic r data = false) ->
+  sniff (bs "IsUUID") data = false ->
+  sniff (bs "IsJWT") data = true ->
+  parse (bs "JWTData") data = Ok i ->
+  Model.Dispatch.inspect sniff parse name data = Ok i.
+Proof. exact Proofs.JwtDispatch.jwt_reached_now. Qed.
+Print Assumptions C18_dispatch_partial.
+
+(* the hypotheses can be met: a 123-byte token (the witness of F37) under an ordinary name *)
+Example C18_dispatch_example :
+  let data := bs "eyJhbGciOiJIUzI1NiIsInR5cCI6IkpXVCJ9.eyJzdWIiOiJ4eHh4eHh4eHh4eHh4eHh4eHh4eHh4eHh4eHh4eHh4eHh4eHh4eHh4eHh4eHh4eHgifQ.AQEBAQE" in
+  length data = 123%nat /\
+  forallb (fun r => match Model.Dispatch.matches_name r (bs "token.jwt") with Ok false => true | _ => false end
+                    && negb (Model.Dispatch.matches_magic r data)) Model.Dispatch.table = true.
+Proof. vm_compute. split; reflexivity. Qed.
+
+(* the table order before the repair (JWT after the ASN.1 rows) fails the T1 check *)
+Theorem C18_F37_refuted :
+  Proofs.JwtDispatch.dispatch_ok
+    [mkrow [] [] (bs "IsUUID") (bs "UUIDValue"); mkrow [] [] (bs "IsASN1") (bs "ASN1File");
+     mkrow [] [] (bs "IsBase64ASN1") (bs "Base64ASN1File"); mkrow [] [] (bs "IsJWT") (bs "JWTData")] = false.
+Proof. exact Proofs.JwtDispatch.dispatch_order_before_F37_rejected. Qed.
+Print Assumptions C18_F37_refuted.
+
+(* Missing for the full C18_dispatch of DESIGN 4/C18 ("forall well-formed tok, the first candidate
+   is JWTData"): deriving the three hypotheses of C18_dispatch_partial from recognition.  That needs
+   facts about the JSON oracle (an object's text starts with white space or '{', so a first segment
+   never starts with a signature such as "ssh-rsa") and about the UUID library; both are exercised
+   by the op "inspect" of the correspondence check on every well-formed generated token. *)
